@@ -49,7 +49,9 @@ Inductive case :=
          (* observed *)
          (c_snap_seq : N) (c_snap_trading : bool) (c_snap_orders : omap) (c_snap_eq : bool)
          (c_ticks : list tobs) (c_eng : list (option eobs)) (c_rep : list robs) (c_whole : robs)
-| CPanic.
+| CPanic
+| CExcluded.   (* the engine panicked on an input outside the input requirements: a fill of
+                  quantity zero (position.rs divides by the fill / position quantity) *)
 
 (* ---- the model instantiated: [rest] and the item payload carry nothing ------------------------- *)
 Definition u_z (r : unit) (x : Z) : unit := tt.
@@ -229,6 +231,7 @@ Definition model_run (md : mode) (sinit : N) (tr0 : bool) (bad : list Z) (hook :
 Definition corr_b (c : case) : bool :=
   match c with
   | CPanic => false
+  | CExcluded => true
   | mkCase md sinit tr0 bad hook pre feed p snap_seq snap_tr snap_orders snap_eq
            ticks engs reps whole =>
       let m := model_run md sinit tr0 bad hook pre feed in
@@ -253,6 +256,7 @@ Definition corr_b (c : case) : bool :=
 Definition wf_case (c : case) : bool :=
   match c with
   | CPanic => true
+  | CExcluded => true
   | mkCase md sinit tr0 bad hook pre feed _ _ _ _ _ _ _ _ _ =>
       let m := model_run md sinit tr0 bad hook pre feed in
       let n := length (filter (fun t => is_process (snd t)) (mr_ticks m)) in
@@ -392,6 +396,7 @@ Definition last_eng (engs : list (option eobs)) : option eobs :=
 Definition prop_b (c : case) : bool :=
   match c with
   | CPanic => false
+  | CExcluded => true
   | mkCase md sinit tr0 bad hook pre feed p snap_seq snap_tr snap_orders snap_eq
            ticks engs reps whole =>
       snap_eq &&
